@@ -27,7 +27,7 @@ RULE = (
     "(DisconnectRequest = expected, reset / silence->ping failure = unexpected) at generated instants; mDNS record events "
     "(PTR alias / A name matching the device, non-matching names and types, TXT/AAAA/SRV/NSEC records of other devices) delivered through the fake zeroconf's listener "
     "registry or forced onto the manager while it is not listening; start() / stop() / stop_callback() at generated "
-    "instants incl. the instants of retry timers; client with and without a device name. non-trivial = >=2 consecutive "
+    "instants incl. the instants of retry timers; user callbacks that return at once or keep running for up to 3 s; client with and without a device name. non-trivial = >=2 consecutive "
     "failures followed by a success, or an mDNS/stop event within 1/64 s of a retry instant, or a stop while an attempt "
     "is in flight."
 )
@@ -134,13 +134,22 @@ def run_case(case: dict) -> CaseResult:
 
     env.new_conn_id = new_conn_id  # type: ignore[method-assign]
 
+    cb_delay = case.get("cb_delay") or {}
+
     async def on_connect():
         env.log("rl_on_connect")
+        if cb_delay.get("connect"):
+            await asyncio.sleep(cb_delay["connect"] / 64)
 
     async def on_disconnect(expected):
         env.log("rl_on_disconnect", expected=expected)
+        if cb_delay.get("disconnect"):
+            await asyncio.sleep(cb_delay["disconnect"] / 64)
+        env.log("rl_on_disconnect_ret", expected=expected)  # the manager schedules its next attempt when the callback has returned
 
     async def on_error(e):
+        if cb_delay.get("error"):
+            await asyncio.sleep(cb_delay["error"] / 64)
         env.log("rl_on_error", exc=type(e).__name__)
 
     rl = ReconnectLogic(client=cli, on_connect=on_connect, on_disconnect=on_disconnect, name="dev" if named else None, on_connect_error=on_error)
@@ -273,8 +282,12 @@ def judge(env, world, case, viol, classes) -> None:
     attempts: list = []     # dict(idx, t, seq, outcome)
     streak = 0
     listening = False
+    disc_cb = None             # (call time, stale slot instants) of the on_disconnect callback currently running / last run
+    record_in_error_cb = False  # a matching record reached the manager while the user's on_connect_error callback was still running
+    must_listen_since = None   # set at a failure report: from then on (later instants) a named, started, idle manager must be registered
+    named = bool(case.get("named", True))
     pending_mandatory: list = []   # (t, why, seq)
-    event_times = sorted(e["t"] for e in tr if e["kind"] in ("rl_on_error", "rl_on_disconnect", "rl_on_connect", "rl_start", "rl_stop_call", "rl_stop_returned", "mdns_deliver", "conn_new", "end_injected"))
+    event_times = sorted(e["t"] for e in tr if e["kind"] in ("rl_on_error", "rl_on_disconnect_ret", "rl_on_connect", "rl_start", "rl_stop_call", "rl_stop_returned", "mdns_deliver", "conn_new", "end_injected"))
 
     def coincides(t, own_count=1):
         return sum(1 for x in event_times if abs(x - t) <= EPS) > own_count
@@ -284,7 +297,10 @@ def judge(env, world, case, viol, classes) -> None:
         nonlocal pending_mandatory
         keep = []
         for (t, why, sq) in pending_mandatory:
-            if now_t > t + EPS:
+            if now_t > t + EPS and why.startswith("mdns") and record_in_error_cb:
+                viol.append(V("c18:record-ignored-while-listening:after-a-record-during-the-error-callback",
+                              f"a matching record delivered at t={t:.6f} while the manager was registered and waiting started no attempt: an earlier record had arrived while on_connect_error was still running, which leaves records ignored until the retry timer fires"))
+            elif now_t > t + EPS:
                 viol.append(V(f"c18:attempt-missing:{why.split(':')[0]}", f"an attempt was due at t={t:.6f} ({why}) while the manager was idle and started, but none began"))
             else:
                 keep.append((t, why, sq))
@@ -294,7 +310,7 @@ def judge(env, world, case, viol, classes) -> None:
     for e in tr:
         k = e["kind"]
         t = e["t"]
-        if k in ("rl_start", "rl_stop_call", "rl_stop_returned", "conn_new", "rl_on_error", "rl_on_connect", "rl_on_disconnect", "mdns_deliver", "zc_listen", "zc_unlisten", "finale"):
+        if k in ("rl_start", "rl_stop_call", "rl_stop_returned", "conn_new", "rl_on_error", "rl_on_connect", "rl_on_disconnect", "rl_on_disconnect_ret", "mdns_deliver", "zc_listen", "zc_unlisten", "finale"):
             # retry slot expiring unused
             if slot and min(slot) < t - EPS and phase == "idle" and not stopped and slot_mandatory:
                 st_ = min(slot)
@@ -304,6 +320,10 @@ def judge(env, world, case, viol, classes) -> None:
             elif slot and max(slot) < t - EPS:
                 slot = []
             check_due(t, e["seq"])
+            if must_listen_since is not None and t > must_listen_since + EPS and phase == "idle" and not stopped and named:
+                if not listening:
+                    viol.append(V("c18:not-listening-while-waiting", f"after the failure reported at t={must_listen_since:.6f} the manager waits for its retry timer but has no mDNS listener registered (seen at t={t:.6f}): a record for the device could not trigger a reconnect"))
+                must_listen_since = None
         if k == "zc_listen":
             listening = True
         elif k == "zc_unlisten":
@@ -323,6 +343,7 @@ def judge(env, world, case, viol, classes) -> None:
                 if was_stopped and not coincides(t):
                     pending_mandatory.append((t, "start():start() returned while idle", e["seq"]))
         elif k == "rl_stop_call":
+            must_listen_since = None
             if phase == "attempting":
                 classes.add("stop_in_flight")
             stopped = True
@@ -331,6 +352,11 @@ def judge(env, world, case, viol, classes) -> None:
             justified_now = []
         elif k == "rl_stop_returned":
             stop_returned_seq = e["seq"]
+            if phase == "attempting":
+                # stop() returned while the attempt had produced no verdict: it was cancelled by the stop
+                phase = "idle"
+                if cur_attempt is not None:
+                    cur_attempt["outcome"] = "stopped"
             if e.get("listeners") and stopped:
                 viol.append(V("c18:listening-after-stop", f"stop() returned at t={t:.6f} with {e['listeners']} mDNS listener(s) still registered"))
         elif k == "conn_new":
@@ -357,16 +383,24 @@ def judge(env, world, case, viol, classes) -> None:
                 if why is None and any(abs(x - t) <= EPS for x in slot):
                     why = "retry-timer"
                     slot = []
+                if why is None and disc_cb is not None and disc_cb["expected"] and disc_cb["t1"] is not None and abs(disc_cb["t1"] - t) <= EPS \
+                        and any(disc_cb["t0"] - EPS <= x <= disc_cb["t1"] + EPS for x in disc_cb["stale"]):
+                    viol.append(V("c18:cooldown-bypassed:stale-retry-timer-fired-during-on_disconnect-callback",
+                                  f"attempt #{idx} starts at t={t:.6f}, the instant the on_disconnect(expected) callback returned, instead of 5 s later: a retry timer armed before the session (due {disc_cb['stale']}) fired while the callback was running"))
+                    why = "known-corner"
                 if why is None:
                     viol.append(V("c18:attempt-not-justified", f"attempt #{idx} starts at t={t:.6f}: no start(), unexpected disconnect or matching mDNS record at that instant, and the retry timer is due at {slot} (n={n}, auth_streak={auth_streak})"))
                 pending_mandatory = [(pt, pw, ps) for (pt, pw, ps) in pending_mandatory if abs(pt - t) > EPS]
             phase = "attempting"
+            record_in_error_cb = False
+            must_listen_since = None
             cur_attempt = {"idx": idx, "t": t, "seq": e["seq"], "errors": 0}
             attempts.append(cur_attempt)
         elif k == "rl_on_error":
-            if cur_attempt is None or phase != "attempting":
-                viol.append(V("c18:error-report-without-attempt", f"on_connect_error({e['exc']}) at t={t:.6f}"))
+            if cur_attempt is None or cur_attempt.get("outcome") not in (None, "stopped"):
+                viol.append(V("c18:error-report-without-attempt", f"on_connect_error({e['exc']}) at t={t:.6f} but no attempt is awaiting a verdict"))
             else:
+                # (a report may trail a stop() that overtook the user's slow error callback)
                 cur_attempt["errors"] += 1
                 cur_attempt["outcome"] = e["exc"]
             phase = "idle"
@@ -385,6 +419,7 @@ def judge(env, world, case, viol, classes) -> None:
             if e["exc"] in AUTH:
                 auth_streak = True
             if not stopped:
+                must_listen_since = t
                 cands = sorted({t + backoff(k) for k in range(max(1, n_lo), n + 1)})
                 if auth_streak:
                     slot = sorted(set(cands + [t + 60]))
@@ -407,8 +442,14 @@ def judge(env, world, case, viol, classes) -> None:
             slot = [] if not slot else slot  # a pending cool-down/back-off may still fire; it must then cause nothing
         elif k == "rl_on_disconnect":
             cb_seq.append("d")
-            phase = "idle"
-            if not stopped:
+            phase = "in_callback"  # the manager holds its lock until the user's callback has returned
+            disc_cb = {"t0": t, "stale": list(slot), "expected": e["expected"], "t1": None}
+        elif k == "rl_on_disconnect_ret":
+            if phase == "in_callback":
+                phase = "idle"
+            if disc_cb is not None:
+                disc_cb["t1"] = t
+            if not stopped and phase == "idle":
                 if e["expected"]:
                     slot = [t + 5.0]
                     slot_mandatory = True
@@ -433,6 +474,11 @@ def judge(env, world, case, viol, classes) -> None:
                 # seen while waiting (cool-down / back-off) although the manager had no listener registered: allowed, not required
                 classes.add("mdns_forced_while_waiting")
                 justified_now.append((t, "matching mDNS record (force-delivered) while waiting", False))
+            elif e["matching"] and e["registered"] and not stopped and phase == "attempting" and cur_attempt is not None and any(
+                    x[2] == "CLOSED" and x[0] < e["seq"] for x in conn_state.get(cur_attempt["idx"], [])):
+                # the attempt has already failed, the user's on_connect_error callback is still running
+                classes.add("mdns_during_error_callback")
+                record_in_error_cb = True
             elif e["matching"] and not stopped and tcp_stage:
                 # statement silent: the implementation restarts an attempt that is still at the TCP stage
                 classes.add("mdns_during_tcp_stage")
@@ -508,7 +554,13 @@ def _case(draw, tier):
         else:
             events.append({"t": tt, "do": "end", "how": "reset"})
     events.sort(key=lambda e: e["t"])
-    return {"named": draw(st.integers(0, 5)) != 0, "addr": draw(st.sampled_from(["ip", "ip", "name"])), "K": 4.0, "plan": plan, "events": events, "horizon": draw(st.sampled_from([200, 400]))}
+    case = {"named": draw(st.integers(0, 5)) != 0, "addr": draw(st.sampled_from(["ip", "ip", "name"])), "K": 4.0, "plan": plan, "events": events, "horizon": draw(st.sampled_from([200, 400]))}
+    if draw(st.integers(0, 3)) == 0:
+        # slow user callbacks; start()/stop() racing with a callback that is still running is outside the statement,
+        # so these histories keep only the initial start()
+        case["cb_delay"] = {k: draw(st.sampled_from([0, 1, 64, 200])) for k in ("connect", "disconnect", "error")}
+        case["events"] = [e for i, e in enumerate(events) if i == 0 or e["do"] not in ("start", "stop", "stop_cb")]
+    return case
 
 
 def strategy(tier):
@@ -524,6 +576,14 @@ def enumerated(tier):
     for kind in (["badauth"], ["reqenc"]):
         yield {"named": True, "addr": "ip", "K": 4.0, "plan": [kind, kind, ["ok"]], "events": [{"t": 0, "do": "start"}], "horizon": 200}
         yield {"named": True, "addr": "ip", "K": 4.0, "plan": [["refuse", 2], kind, ["refuse", 2], ["ok"]], "events": [{"t": 0, "do": "start"}], "horizon": 260}
+    # slow user callbacks: the session ends while on_connect is still running, etc.
+    for how in ("discreq", "reset"):
+        for cbd in ({"connect": 200}, {"disconnect": 200}, {"error": 64}, {"connect": 64, "disconnect": 64, "error": 64}):
+            for after in ([["ok"]], [["refuse", 2], ["ok"]]):
+                yield {"named": True, "addr": "ip", "K": 4.0, "plan": [["ok"]] + after, "events": [{"t": 0, "do": "start"}, {"t": 64, "do": "end", "how": how}, {"t": 64 * 20, "do": "end", "how": "reset"}], "horizon": 120, "cb_delay": cbd}
+    # a failure, then an mDNS-triggered attempt that fails too, then records again: the manager must still be listening
+    for rec in ("ptr", "a"):
+        yield {"named": True, "addr": "ip", "K": 4.0, "plan": [["refuse", 2], ["refuse", 2], ["refuse", 2], ["garbage"], ["ok"]], "events": [{"t": 0, "do": "start"}, {"t": 64, "do": "mdns", "rec": rec}, {"t": 64 * 3, "do": "mdns", "rec": rec}, {"t": 64 * 5, "do": "mdns", "rec": rec}], "horizon": 150}
     # session endings: expected -> 5 s cool-down, unexpected -> immediately; then failures count from 1 again
     for how in ("discreq", "reset", "silence"):
         for after in ([["ok"]], [["refuse", 2], ["refuse", 2], ["ok"]]):
